@@ -8,7 +8,7 @@
     c08.params_eq <n> <modulus>                     constructor agreement (1/0 flags)
     c08.redc <n> <lower> <upper> <modulus> <k>      public `montgomery_reduction`
     c08.mul_mod <kind> <n> <a> <b> <p>              `Uint::mul_mod` / `BoxedUint::mul_mod`
-    c08.hook.amm / c08.hook.amm_by_one / c08.hook.redc_inner   crate-internal functions (hooks requested)
+    c08.hook.amm / c08.hook.amm_by_one / c08.hook.redc_inner / c08.hook.params   crate-internal functions (verif_hooks)
   Every line is printed as `L1 ;; L0` (L1 = limb model, L0 = what the property demands).
 -/
 import CB.Driver.Util
@@ -168,23 +168,55 @@ def dispatchC08 : Dispatch := fun op args =>
         some (s!"{limbsHex r} ;; {natToHex ((a * b) % p)}")
       | none => badArgs
     | _, _, _, _ => badArgs
-  -- crate-internal functions (need the hooks requested in notes/C08.md; not generated until they exist)
+  -- crate-internal functions reached through `crypto_bigint::verif_hooks`.  L0 (printed when `m` is odd and
+  -- `k·m ≡ −1 (mod 2^64)`) is the textbook value: with `k' = −m⁻¹ mod R`, `U = (T·k') mod R`, `X = (T + U·m) / R`;
+  -- AMM returns `X` or `X − m` when `X ≥ R` (`T = x·y`, any `x, y < R`); `redc_inner` returns `(X mod R, X / R)`.
   | "c08.hook.amm", [n, x, y, m, k] =>
     match n.toNat?, hexToNat? x, hexToNat? y, hexToNat? m, hexToNat? k with
     | some n, some x, some y, some m, some k =>
-      some (limbsHex (almostMontgomeryMul (toLimbs n x) (toLimbs n y) (toLimbs n m) k))
+      let l1 := limbsHex (almostMontgomeryMul (toLimbs n x) (toLimbs n y) (toLimbs n m) k)
+      let R := B ^ n
+      if m % 2 = 1 ∧ (k * m + 1) % B = 0 ∧ n > 0 ∧ x < R ∧ y < R ∧ m < R then
+        let X := (x * y + ((x * y * negInvFull n m) % R) * m) / R
+        some s!"{l1} ;; {natToHex (if X ≥ R then X - m else X)}"
+      else some l1
     | _, _, _, _, _ => badArgs
   | "c08.hook.amm_by_one", [n, x, m, k] =>
     match n.toNat?, hexToNat? x, hexToNat? m, hexToNat? k with
     | some n, some x, some m, some k =>
-      some (limbsHex (almostMontgomeryMulByOne (toLimbs n x) (toLimbs n m) k))
+      let l1 := limbsHex (almostMontgomeryMulByOne (toLimbs n x) (toLimbs n m) k)
+      let R := B ^ n
+      if m % 2 = 1 ∧ (k * m + 1) % B = 0 ∧ n > 0 ∧ x < R ∧ m < R then
+        let X := (x + ((x * negInvFull n m) % R) * m) / R
+        some s!"{l1} ;; {natToHex (if X ≥ R then X - m else X)}"
+      else some l1
     | _, _, _, _ => badArgs
   | "c08.hook.redc_inner", [n, lo, hi, m, k] =>
     match n.toNat?, hexToNat? lo, hexToNat? hi, hexToNat? m, hexToNat? k with
     | some n, some lo, some hi, some m, some k =>
       let r := redcInner (toLimbs n hi) (toLimbs n lo) (toLimbs n m) k
-      some s!"{limbsHex r.1} {natToHex r.2}"
+      let l1 := s!"{limbsHex r.1} {natToHex r.2}"
+      let R := B ^ n
+      if m % 2 = 1 ∧ (k * m + 1) % B = 0 ∧ n > 0 ∧ lo < R ∧ hi < R ∧ m < R then
+        let X := (lo + R * hi + ((lo * negInvFull n m) % R) * m) / R
+        some s!"{l1} ;; {natToHex (X % R)} {natToHex (X / R)}"
+      else some l1
     | _, _, _, _, _ => badArgs
+  | "c08.hook.params", [kind, n, m] =>
+    -- the private parameter fields read through `verif_fields()`: same answer as `c08.params`
+    match n.toNat?, hexToNat? m with
+    | some n, some m =>
+      let ms := toLimbs n m
+      let p? : Option Params := match kind with
+        | "dyn" => some (paramsNew ms)
+        | "dynv" => some (paramsNewVartime ms)
+        | "dynfromconst" | "boxedfromconst" => some (paramsConst ms)
+        | "boxed" | "boxedv" => some (paramsBoxed ms)
+        | _ => none
+      match p? with
+      | some p => some (paramsTok p ++ " ;; " ++ paramsTok (paramsSpec n m))
+      | none => badArgs
+    | _, _ => badArgs
   | _, _ => none
 
 end CB
